@@ -1,6 +1,7 @@
 package main
 
 import (
+	"crypto/tls"
 	"bytes"
 	"encoding/binary"
 	"encoding/json"
@@ -37,6 +38,7 @@ func init() {
 				{Name: "hook", Run: c02Hook},
 				{Name: "tcp-recover", Run: c02TCPRecover},
 				{Name: "tcp-recover-debuglog", Run: func(c *Ctx) { c02DebugServers = true; c02TCPRecover(c) }},
+				{Name: "plaintext-to-tls-listener", Run: func(c *Ctx) { c02TLSListener = true; c02TCPRecover(c) }},
 				{Name: "tcp-norecover", Run: c02TCPNoRecover, Crash: c02Crash},
 			}
 			if tier == "thorough" {
@@ -44,7 +46,7 @@ func init() {
 			}
 			return ps
 		},
-		MinObserved: []string{"inputs", "inputs_tcp_recover", "inputs_tcp_norecover", "reached_decodeControl", "inputs_tcp_recover_debug_level_logger"},
+		MinObserved: []string{"inputs", "inputs_tcp_recover", "inputs_tcp_norecover", "reached_decodeControl", "inputs_tcp_recover_debug_level_logger", "inputs_sent_in_plaintext_to_a_tls_listener"},
 	})
 }
 
@@ -508,11 +510,21 @@ func c02TCPInputs(c *Ctx) []c02Input {
 // raw, not yet validated packet and is dead at every other level); the complete single-point set plus a slice of the rest.
 var c02DebugServers bool
 
+// c02TLSListener: the same (thinned) corpus sent in PLAINTEXT to servers that run a TLS listener: the bytes never get
+// past the TLS layer, but whatever the server does about a peer that does not speak TLS must not panic either.
+var c02TLSListener bool
+
 func c02TCPRecover(c *Ctx) {
 	ins := c02TCPInputs(c)
 	lvl := hclog.NoLevel
-	if c02DebugServers {
-		lvl = hclog.Debug
+	var stc *tls.Config
+	if c02TLSListener {
+		stc = newPKI().ServerOnly
+	}
+	if c02DebugServers || c02TLSListener {
+		if c02DebugServers {
+			lvl = hclog.Debug
+		}
 		n := len(c02Singles())
 		if n > len(ins) {
 			n = len(ins)
@@ -531,7 +543,7 @@ func c02TCPRecover(c *Ctx) {
 		go func() {
 			defer wg.Done()
 			rc := &Recorder{}
-			srv, err := startSrv(SrvCfg{LogLevel: lvl}, func(m *gldap.Mux) { rc.RegisterAll(m, c01ExtNames) })
+			srv, err := startSrv(SrvCfg{LogLevel: lvl, TLS: stc}, func(m *gldap.Mux) { rc.RegisterAll(m, c01ExtNames) })
 			if err != nil {
 				c.Inconclusive("server start: " + err.Error())
 				return
@@ -543,6 +555,9 @@ func c02TCPRecover(c *Ctx) {
 				}
 				if c02SendTCP(c, srv, ins[i], "recovery enabled") {
 					c.Count("inputs_tcp_recover", 1)
+					if c02TLSListener {
+						c.Count("inputs_sent_in_plaintext_to_a_tls_listener", 1)
+					}
 					if c02DebugServers {
 						c.Count("inputs_tcp_recover_debug_level_logger", 1)
 					}
